@@ -399,3 +399,110 @@ func vfAdversarialBFS(c *hx.Ctx, prefix string, depth int, full bool) {
 	u.WallS = time.Since(start).Seconds()
 	c.AddUnit(u)
 }
+
+// vfRtoBFS: the retransmission timeout a core reports stays within [minimum RTO, 60 s] whatever acknowledgement timing or
+// (forged) timestamps it observes — explicit-state BFS over acknowledgements with a timestamp alphabet, clock ticks and sends.
+func vfRtoBFS(c *hx.Ctx, depth int) {
+	name := "rto-bfs"
+	if c.Skip(name) || (c.Of > 1 && c.Shard > 1) {
+		return
+	}
+	start := time.Now()
+	u := &hx.Unit{Name: name, Kind: "bfs", Exhaustive: true, Params: map[string]any{"depth": depth, "ack_timestamps": "now, now-1, -29, -1000, -20001, -30000, -59999, -60000, -60001, -2^31+1, now+1, 0, 0xffffffff",
+		"other_actions": "tick(interval), tick(rto), tick(61s), Send+flush", "modes": "nodelay 0 and 1"}}
+	refTime = vrt.Epoch0
+	vrt.SetPoolMode(vrt.PoolPlain)
+	for nd := 0; nd < 2; nd++ {
+		if c.Of > 1 && nd != c.Shard {
+			continue
+		}
+		vfSetMs(100000)
+		k0 := NewKCP(vfConv, func([]byte, int) {})
+		k0.NoDelay(nd, 10, 2, 1)
+		k0.WndSize(8, 8)
+		k0.SetMtu(40)
+		for i := 0; i < 4; i++ {
+			k0.Send(make([]byte, 8))
+		}
+		k0.flush(IKCP_FLUSH_FULL)
+		type st struct {
+			k     *KCP
+			now   uint32
+			depth int
+			path  string
+		}
+		visited := map[uint64]bool{vfKCPKey(k0, 100000): true}
+		queue := []*st{{k: k0, now: 100000, path: fmt.Sprintf("[nodelay=%d, 4 segments in flight]", nd)}}
+		u.States++
+		for len(queue) > 0 {
+			s := queue[0]
+			queue = queue[1:]
+			if s.depth >= depth || time.Now().After(c.Deadline) {
+				if s.depth < depth {
+					u.Exhaustive, u.CapHit = false, "internal deadline"
+				}
+				continue
+			}
+			type act struct {
+				name string
+				do   func(k *KCP, now *uint32)
+			}
+			var acts []act
+			now := s.now
+			for _, off := range []int64{0, -1, -29, -1000, -20001, -30000, -59999, -60000, -60001, -(1 << 31) + 1, 1, -int64(now), int64(0xffffffff) - int64(now)} {
+				ts := uint32(int64(now) + off)
+				off := off
+				acts = append(acts, act{fmt.Sprintf("ACK(oldest, ts=now%+d)", off), func(k *KCP, _ *uint32) {
+					k.Input(wire.EncodeSegment(wire.Seg{Conv: k.conv, Cmd: wire.CmdAck, Wnd: 32, Sn: k.snd_una, Una: k.snd_una, Ts: ts}, -1), IKCP_PACKET_REGULAR, false)
+				}})
+			}
+			acts = append(acts,
+				act{"tick(interval)+flush", func(k *KCP, n *uint32) { *n += k.interval; vfSetMs(*n); k.flush(IKCP_FLUSH_FULL) }},
+				act{"tick(rto)+flush", func(k *KCP, n *uint32) { *n += k.rx_rto + 1; vfSetMs(*n); k.flush(IKCP_FLUSH_FULL) }},
+				act{"tick(61s)+flush", func(k *KCP, n *uint32) { *n += 61000; vfSetMs(*n); k.flush(IKCP_FLUSH_FULL) }},
+				act{"Send+flush", func(k *KCP, n *uint32) { k.Send(make([]byte, 8)); k.flush(IKCP_FLUSH_FULL) }})
+			for _, a := range acts {
+				k2 := vfCloneKCP(s.k, func([]byte, int) {})
+				n2 := s.now
+				vfSetMs(n2)
+				a.do(k2, &n2)
+				u.Transitions++
+				path := s.path + " " + a.name
+				if k2.rx_rto < k2.rx_minrto || k2.rx_rto > IKCP_RTO_MAX {
+					dupe := false
+					for _, v := range u.Violations {
+						dupe = dupe || v.Signature == "C18:rto-out-of-bounds:forged-or-aged-ack-timestamps"
+					}
+					if !dupe {
+						u.Violations = append(u.Violations, c.NewViolation(name, u.Params, "C18:rto-out-of-bounds:forged-or-aged-ack-timestamps",
+							fmt.Sprintf("the core reports rto=%d, bounds are [%d, %d] (srtt=%d rttvar=%d)", k2.rx_rto, k2.rx_minrto, IKCP_RTO_MAX, k2.rx_srtt, k2.rx_rttvar), "path: "+path))
+					}
+					continue
+				}
+				key := vfKCPKey(k2, n2)
+				if !visited[key] {
+					visited[key] = true
+					u.States++
+					u.NonTrivial++
+					if s.depth+1 > u.Depth {
+						u.Depth = s.depth + 1
+					}
+					if len(u.Samples) < 3 && s.depth+1 == depth && u.States%400 == 3 {
+						u.Samples = append(u.Samples, map[string]any{"path": path, "rto": k2.rx_rto})
+					}
+					queue = append(queue, &st{k: k2, now: n2, depth: s.depth + 1, path: path})
+				}
+			}
+		}
+	}
+	if len(u.Samples) == 0 {
+		u.Samples = append(u.Samples, map[string]any{"path": "[nodelay=0] ACK(oldest, ts=now-20001) tick(interval)+flush"})
+	}
+	u.Executions = u.Transitions
+	u.EndStatesN = u.States
+	if len(u.Violations) > 0 {
+		u.Exhaustive = false
+	}
+	u.WallS = time.Since(start).Seconds()
+	c.AddUnit(u)
+}
